@@ -8,7 +8,7 @@ TARGETS = ['MindsVerif.Props.C19']
 _P = 'MindsVerif.Props.C19.'
 THEOREMS = [_P + n for n in (
     'C19_caret_partial', 'C19_caret_source', 'C19_eof_caret', 'C19_variant_agrees', 'C19_caret_partial_v',
-    'C19_eof_caret_v', 'C19_suggestions_checked',
+    'C19_eof_caret_v', 'C19_caret_split', 'C19_caret_uniform', 'C19_eof_caret_uniform', 'C19_suggestions_checked',
     'C19_suggestions_sentence_mindsdb', 'C19_lexer_caret', 'C19_bad_token_prefix',
     'C19_bad_token_prefix_mindsdb', 'C19_bad_token_deterministic', 'C19_no_accepted_continuation',
     'C19_bad_token_deterministic_mindsdb', 'C19_suggestion_is_row_key', 'C19_key_classification',
@@ -18,9 +18,10 @@ THEOREMS = [_P + n for n in (
 ASSUME = [
     'ErrorHandling.error_location / make_suggestion / process and MindsDBLexer.error are hand-modelled '
     '(MindsVerif.Err); tie = the message correspondence stream of this run (model message == real message, byte for byte)',
-    'the lexer position invariants (layoutOK) and value = source slice (since repo 5f4cdd1 no mindsdb lexer action '
-    'rewrites token.value) are hypotheses of the caret theorems; both are checked on every token list of the stream '
-    '(probes `layout-invariant`, `value-is-source`), not proved about sly/lex.py',
+    'the uniform lexer semantics (value = source slice since 5f4cdd1, lineno = 1 + newlines before index since bd184d7, '
+    'tokens in text order without overlap) is the hypothesis SrcChain of C19_caret_uniform; it is checked on every token list '
+    'of the stream (probes `value-is-source`, `lineno-uniform`, `layout-invariant`) and pinned by the extractor flags, '
+    'not proved about sly/lex.py',
     'query_is_valid is modelled by acceptance of the LR model; semantic actions of the re-parse are not modelled',
     'completability half of "first token the grammar cannot accept" is search only (Earley oracle)',
 ]
@@ -233,6 +234,11 @@ def probe_case(text, earley, kind=None, msg=None):
     info = real_error_info(text)
     pk = info.get('bad', 'n/a') if 'expected' in info else 'n/a'
     pk = len(toks) if pk is None else pk
+    if isinstance(pk, int) and pk < k and pk < len(toks) and info.get('key_kinds', {}).get(toks[pk].type) == 'none':
+        # the action row of the error state holds an explicit error entry for this token: a %nonassoc operator
+        # chained without parentheses (a < b < c).  The precedence declaration is part of the grammar, the
+        # context-free Earley oracle does not know it: the parser's bad token IS the grammar's
+        k = pk
     src = blank_comments(sql)
     starts = [0]
     for i, c in enumerate(sql):
@@ -251,7 +257,7 @@ def probe_case(text, earley, kind=None, msg=None):
     rew = [i for i, t in enumerate(toks) if str(t.value) != sql[t.index:t.end]]
     kk = min(pk if isinstance(pk, int) else k, k, len(toks) - 1)
     cur_line = line_of(toks[kk].index)
-    tok_lines = sorted({line_of(t.index) for t in toks})
+    tok_lines = sorted({l for t in toks for l in range(line_of(t.index), line_of(max(t.index, t.end - 1)) + 1)})
     near = set([cur_line] + [l for l in tok_lines if l < cur_line][-2:])
     rew_near = [i for i in rew if line_of(toks[i].index) in near]
     bad_end = max(t.end for t in toks if t.lineno == toks[kk].lineno)
@@ -267,7 +273,7 @@ def probe_case(text, earley, kind=None, msg=None):
     if isinstance(pk, int) and pk < k:
         # the LALR parser (conflict / precedence resolution) gives up before the grammar does
         t = toks[pk]
-        want = sql[t.index:t.end]
+        want = sql[t.index:t.end].split('\n')[0]   # a token spanning lines: one caret line can mark its first line only
         col = dashes - 1
         under = last[col:col + carets] if col >= 0 else None
         good = under == want and carets == len(want) and 'unknown input' in pm['header']
@@ -295,7 +301,7 @@ def probe_case(text, earley, kind=None, msg=None):
                             text, **ctx))
             return out
         t = toks[k]
-        want = sql[t.index:t.end]
+        want = sql[t.index:t.end].split('\n')[0]   # a token spanning lines: one caret line can mark its first line only
         col = dashes - 1
         under = last[col:col + carets] if col >= 0 else None
         ln = line_of(t.index)
@@ -311,7 +317,7 @@ def probe_case(text, earley, kind=None, msg=None):
                             text, shown=last, want=want_line, **ctx))
     # context lines: the token-bearing source lines just before
     if not out and len(shown) > 1:
-        tl = sorted({line_of(t.index) for t in toks})
+        tl = tok_lines
         cur = line_of(toks[min(k, len(toks) - 1)].index)
         prev = [l for l in tl if l < cur][-(len(shown) - 1):]
         if [norm(srclines[l]) for l in prev] != [norm(s) for s in shown[:-1]]:
@@ -428,8 +434,10 @@ def case_stream(rng, n_mut, n_sent, grammar):
             yield dict(src=case['src'] + '+illegal', text=t[:i] + rng.choice(ILLEGAL) + t[i:])
     for c in lex_after_multiline(rng, max(150, n_mut // 4)):
         yield c
+    for c in syn_after_multiline(rng, max(150, n_mut // 4)):
+        yield c
     for g in ["select /* a\n b */ 1 #", "select 'a\nb' #", "select a IS\nNOT null #", "select /* a\n b */ 1\n#\nfrom t",
-              "select 'a\n\nb',\n c\n from t &", "# /* a\n b */", "select #\nfrom t", "select a\nfrom t #", "select @aa @bb", "select 'it''s' 'x' from", "select 1 1",
+              "select 'a\n\nb',\n c\n from t &", "# /* a\n b */", "select a IS\nNOT null null", "select a NOT\n\n IN (1) (2)", "select `x\ny` from from", "select @'a\nb' @b", "select #\nfrom t", "select a\nfrom t #", "select @aa @bb", "select 'it''s' 'x' from", "select 1 1",
               "  select\n    a b c d\n  from t t t", "select a /* c\n c */ from from", "select 'a\nb' from from",
               "select a from t1 join", "from", "\n\n  from", "select\n\n\n1\n\n\n2", "select * from t where a not b c",
               "select a from t where", "create", "select a,\n  b,\n  c c c\nfrom t", "\tselect\t1\t1", "select 1 )",
@@ -474,6 +482,24 @@ def lex_after_multiline(rng, n):
         yield dict(src='lexml:' + where, text='\n'.join(pre + [mid] + after))
 
 
+def syn_after_multiline(rng, n):
+    """syntax errors placed after a token / comment that spans a line break (string, quoted id, variable, IS\\nNOT …):
+    the doubled or stray token sits on the line where the construct ends, on the next or on a later line"""
+    def words(k):
+        return ' '.join(rng.choice(WORDS) for _ in range(k))
+    for _ in range(n):
+        cons = rng.choice(MULTI)
+        head = rng.choice(['select a,', 'select', 'select b from t where x', 'select 1,', 'select a from t where a'])
+        if cons.upper().split()[0] in ('IS', 'NOT', 'KNOWLEDGE', 'PRIMARY'):
+            head = 'select a from t where a'
+        bad = rng.choice(['from from', ') x', 'c c c', 'where where', ', ,', '1 1 1'])
+        where = rng.choice(['same', 'next', 'later'])
+        pre = [words(rng.randint(1, 3))] if rng.random() < 0.3 else []
+        sep = {'same': ' ', 'next': '\n' + rng.choice(['', '  ']), 'later': '\n\n  b\n'}[where]
+        text = '\n'.join(pre + [head + ' ' + cons + ' b' + sep + bad])
+        yield dict(src='synml:' + where, text=text)
+
+
 def layout_invariant(toks, sql):
     """the hypotheses of C19_caret_partial, checked on the real token list: index/lineno monotone,
     value no longer than the gap to the next token"""
@@ -500,6 +526,7 @@ def run(chk):
     klines, kmetas = [], []
     lay_bad = None
     src_bad = None
+    lno_bad = None
     for case in case_stream(rng, n_mut, n_sent, G):
         text = case['text']
         kind, msg = real_message(text)
@@ -524,6 +551,8 @@ def run(chk):
                     lay_bad = text
                 if src_bad is None and any(str(t.value) != info['sql'][t.index:t.end] for t in info['toks']):
                     src_bad = text
+                if lno_bad is None and any(t.lineno != 1 + info['sql'].count('\n', 0, t.index) for t in info['toks']):
+                    lno_bad = text
                 lines.append(model_line_syn(R, info))
                 metas.append((case, msg))
                 # Φ19 / _can_take: the expected tokens stored by MindsDBParser.error vs the model's keptExpected
@@ -546,6 +575,9 @@ def run(chk):
     chk.oblige('probe:value-is-source', 'probe', src_bad is None,
                '' if src_bad is None else 'real lexer produced a token whose value is not its source slice '
                '(hypothesis of C19_caret_source, repo 5f4cdd1): %r' % src_bad)
+    chk.oblige('probe:lineno-uniform', 'probe', lno_bad is None,
+               '' if lno_bad is None else 'real lexer produced a token whose lineno is not 1 + the newlines before its '
+               'index (hypothesis of C19_caret_uniform, repo bd184d7): %r' % lno_bad)
     chk.oblige('probe:layout-invariant', 'probe', lay_bad is None,
                '' if lay_bad is None else 'real lexer produced a token list violating Layout: %r' % lay_bad)
     try:
